@@ -1,6 +1,7 @@
 import VOPyVerif.Proofs.Rect
 import VOPyVerif.Proofs.Ellipsoid
 import VOPyVerif.Proofs.EllipsoidPosDef
+import VOPyVerif.Proofs.InvDominated
 import Mathlib.LinearAlgebra.Matrix.Notation
 /-!
 # C09 — region "is dominated" decides `∀ z ∈ R₁, ∀ z' ∈ R₂ : z' + slack ≽ z`
@@ -299,5 +300,169 @@ theorem ell_isDominatedTol_iff (W : Fin N → Fin m → ℚ) (c1 c2 : Fin m → 
     Ellipsoid.isDominatedTol (toMat W) (toVec c1) (toMat S1) a1 (toVec c2) (toMat S2) a2 (toVec s) t
         = true ↔ Ellipsoid.DominatedTol W c1 L1 a1 c2 L2 a2 s t :=
   Ellipsoid.isDominatedTol_iff W c1 c2 S1 S2 a1 a2 s t L1 L2 hL1 hL2 ha1 ha2
+
+/-! ## INVARIANCES — translation, positive scaling, cone-row scaling and permutation
+
+About the executable decisions the driver ops `rect` / `recttol` / `ell` / `elltol` evaluate
+(helpers: `Proofs/InvBasic.lean`, `Proofs/InvDominated.lean`).  They hold for *all* inputs of
+consistent lengths, with no ordering (`l ≤ u`), positive-definiteness or radius hypotheses; they are
+what the harness' metamorphic checks (translated / rescaled / large-offset cases, non-unit and
+re-ordered cone rows must give the same verdict) rely on: a decision that looked at relative sizes
+(`rtol·|value|`) instead of differences would break them. -/
+
+section Invariance
+open VOPy.Inv
+
+/-- **Rectangles: common translation.**  Translating BOTH rectangles by one vector `t` changes neither
+the checked verdict (`rect`, any cone matrix, any slack, guard included) nor any band verdict
+(`recttol`, any threshold `τ`). -/
+theorem rect_isDominated_translate (W : Mat) (l1 u1 l2 u2 s t : Vec)
+    (h1 : l1.length = t.length) (h2 : u1.length = t.length) (h3 : l2.length = t.length)
+    (h4 : u2.length = t.length) :
+    Rect.isDominatedChecked W (vadd l1 t) (vadd u1 t) (vadd l2 t) (vadd u2 t) s =
+        Rect.isDominatedChecked W l1 u1 l2 u2 s ∧
+    ∀ (s' : Vec) (τ : ℚ),
+      Rect.isDominatedTol W (vadd l1 t) (vadd u1 t) (vadd l2 t) (vadd u2 t) s' τ =
+        Rect.isDominatedTol W l1 u1 l2 u2 s' τ := by
+  refine ⟨?_, fun s' τ => rect_tol_translate W l1 u1 l2 u2 s' t τ h1 h2 h3 h4⟩
+  unfold Rect.isDominatedChecked
+  rw [vadd_length_eq h1, ← h1]
+  cases Rect.expandSlack l1.length s with
+  | none => rfl
+  | some s' => simp [rect_translate W l1 u1 l2 u2 s' t h1 h2 h3 h4]
+
+/-- **Rectangles: positive scaling.**  Scaling both rectangles AND the slack by `c > 0` changes neither
+the checked verdict nor the band verdicts (threshold scaled alike).  No length hypothesis at all. -/
+theorem rect_isDominated_scale (W : Mat) (c : ℚ) (hc : 0 < c) (l1 u1 l2 u2 s : Vec) :
+    Rect.isDominatedChecked W (smul c l1) (smul c u1) (smul c l2) (smul c u2) (smul c s) =
+        Rect.isDominatedChecked W l1 u1 l2 u2 s ∧
+    ∀ (s' : Vec) (τ : ℚ),
+      Rect.isDominatedTol W (smul c l1) (smul c u1) (smul c l2) (smul c u2) (smul c s') (c * τ) =
+        Rect.isDominatedTol W l1 u1 l2 u2 s' τ := by
+  refine ⟨?_, fun s' τ => rect_tol_scale W c hc l1 u1 l2 u2 s' τ⟩
+  unfold Rect.isDominatedChecked
+  rw [smul_length, rect_expandSlack_smul]
+  cases Rect.expandSlack l1.length s with
+  | none => rfl
+  | some s' => simp [rect_scale W c hc l1 u1 l2 u2 s']
+
+/-- **Rectangles: cone rows may be rescaled and re-ordered.**  Multiplying the rows of `W` by positive
+factors `D` (one per row) or permuting them leaves the rectangle verdict unchanged *with the same
+slack*: the rectangle slack is an objective-space shift, not a per-facet quantity. -/
+theorem rect_isDominated_rows (W : Mat) (l1 u1 l2 u2 s : Vec) :
+    (∀ D : Vec, (∀ d ∈ D, 0 < d) → D.length = W.length →
+      Rect.isDominatedChecked (List.zipWith smul D W) l1 u1 l2 u2 s =
+        Rect.isDominatedChecked W l1 u1 l2 u2 s) ∧
+    (∀ W' : Mat, W.Perm W' →
+      Rect.isDominatedChecked W' l1 u1 l2 u2 s = Rect.isDominatedChecked W l1 u1 l2 u2 s) := by
+  constructor
+  · intro D hD hlen
+    unfold Rect.isDominatedChecked
+    cases Rect.expandSlack l1.length s with
+    | none => rfl
+    | some s' => simp [← rect_scaleRows D W hD hlen l1 u1 l2 u2 s', scaleRows]
+  · intro W' h
+    unfold Rect.isDominatedChecked
+    cases Rect.expandSlack l1.length s with
+    | none => rfl
+    | some s' => simp [rect_perm h l1 u1 l2 u2 s']
+
+/-- **Ellipsoids: common translation of the centres** leaves the checked verdict (`ell`) and every
+band verdict (`elltol`) unchanged — any covariances, radii, cone and slack. -/
+theorem ell_isDominated_translate (W : Mat) (c1 : Vec) (S1 : Mat) (a1 : ℚ) (c2 : Vec) (S2 : Mat)
+    (a2 : ℚ) (s t : Vec) (h1 : c1.length = t.length) (h2 : c2.length = t.length) :
+    Ellipsoid.isDominatedChecked W (vadd c1 t) S1 a1 (vadd c2 t) S2 a2 s =
+        Ellipsoid.isDominatedChecked W c1 S1 a1 c2 S2 a2 s ∧
+    ∀ (s' : Vec) (τ : ℚ),
+      Ellipsoid.isDominatedTol W (vadd c1 t) S1 a1 (vadd c2 t) S2 a2 s' τ =
+        Ellipsoid.isDominatedTol W c1 S1 a1 c2 S2 a2 s' τ := by
+  refine ⟨?_, fun s' τ => ell_tol_translate W c1 S1 a1 c2 S2 a2 s' t τ h1 h2⟩
+  unfold Ellipsoid.isDominatedChecked
+  cases Ellipsoid.expandSlack W.length s with
+  | none => rfl
+  | some s' =>
+    simp [isDominated_eq_tol, ell_tol_translate W c1 S1 a1 c2 S2 a2 s' t 0 h1 h2]
+
+/-- **Ellipsoids: homogeneity.**  For `k > 0`: centres `↦ k·c`, slack `↦ k·s` and EITHER every
+covariance entry `↦ k²·Σ` (radii `alpha` fixed) OR radii `↦ k·alpha` (covariances fixed) leave the
+checked verdict unchanged; band thresholds scale with `k`. -/
+theorem ell_isDominated_scale (W : Mat) (k : ℚ) (hk : 0 < k) (c1 : Vec) (S1 : Mat) (a1 : ℚ) (c2 : Vec)
+    (S2 : Mat) (a2 : ℚ) (s : Vec) :
+    Ellipsoid.isDominatedChecked W (smul k c1) (S1.map (smul (k * k))) a1 (smul k c2)
+        (S2.map (smul (k * k))) a2 (smul k s) = Ellipsoid.isDominatedChecked W c1 S1 a1 c2 S2 a2 s ∧
+    Ellipsoid.isDominatedChecked W (smul k c1) S1 (k * a1) (smul k c2) S2 (k * a2) (smul k s) =
+        Ellipsoid.isDominatedChecked W c1 S1 a1 c2 S2 a2 s ∧
+    ∀ (s' : Vec) (τ : ℚ),
+      Ellipsoid.isDominatedTol W (smul k c1) (S1.map (smul (k * k))) a1 (smul k c2)
+          (S2.map (smul (k * k))) a2 (smul k s') (k * τ) =
+        Ellipsoid.isDominatedTol W c1 S1 a1 c2 S2 a2 s' τ := by
+  refine ⟨?_, ?_, fun s' τ => ell_tol_scale_sigma W k hk c1 S1 a1 c2 S2 a2 s' τ⟩
+  · unfold Ellipsoid.isDominatedChecked
+    rw [ell_expandSlack_smul]
+    cases Ellipsoid.expandSlack W.length s with
+    | none => rfl
+    | some s' =>
+      have := ell_tol_scale_sigma W k hk c1 S1 a1 c2 S2 a2 s' 0
+      simp only [mul_zero, scaleMat] at this
+      simp [isDominated_eq_tol, this]
+  · unfold Ellipsoid.isDominatedChecked
+    rw [ell_expandSlack_smul]
+    cases Ellipsoid.expandSlack W.length s with
+    | none => rfl
+    | some s' =>
+      have := ell_tol_scale_alpha W k hk c1 S1 a1 c2 S2 a2 s' 0
+      simp only [mul_zero] at this
+      simp [isDominated_eq_tol, this]
+
+/-- **Ellipsoids: a cone row may be rescaled together with its slack entry.**  The ellipsoid slack is
+per facet: multiplying row `n` of `W` and entry `n` of the slack by the same `D n > 0` leaves the
+verdict unchanged (so non-unit rows with the matching slack `ε·‖w_n‖` decide like unit rows with
+`ε`). -/
+theorem ell_isDominated_row_scale (W : Mat) (D s : Vec) (hD : ∀ d ∈ D, 0 < d) (hlen : D.length = W.length)
+    (hs : s.length = W.length) (c1 : Vec) (S1 : Mat) (a1 : ℚ) (c2 : Vec) (S2 : Mat) (a2 : ℚ) :
+    Ellipsoid.isDominatedChecked (List.zipWith smul D W) c1 S1 a1 c2 S2 a2 (List.zipWith (· * ·) D s) =
+      Ellipsoid.isDominatedChecked W c1 S1 a1 c2 S2 a2 s := by
+  have guard : ∀ (N : Nat) (v : Vec), v.length = N → Ellipsoid.expandSlack N v = some v := by
+    intro N v hv
+    unfold Ellipsoid.expandSlack
+    match v, hv with
+    | [x], hv => simp at hv; subst hv; simp
+    | [], hv => simp [hv]
+    | _ :: _ :: _, hv => simp [hv]
+  unfold Ellipsoid.isDominatedChecked
+  rw [guard _ _ (by simp [hlen, hs]), guard _ _ hs]
+  simp only [Option.map_some, Option.some.injEq]
+  exact ell_scaleRows D W hD hlen c1 S1 a1 c2 S2 a2 s
+
+/-- **Ellipsoids: the facets may be re-ordered** (rows and their slack entries permuted alike). -/
+theorem ell_isDominated_row_perm (ws ws' : List (Vec × ℚ)) (h : ws.Perm ws') (c1 : Vec) (S1 : Mat)
+    (a1 : ℚ) (c2 : Vec) (S2 : Mat) (a2 : ℚ) :
+    Ellipsoid.isDominated (ws.map Prod.fst) c1 S1 a1 c2 S2 a2 (ws.map Prod.snd) =
+      Ellipsoid.isDominated (ws'.map Prod.fst) c1 S1 a1 c2 S2 a2 (ws'.map Prod.snd) :=
+  ell_perm h c1 S1 a1 c2 S2 a2
+
+/-- non-vacuity, large offset and tiny gap: `[0,1]²` against `[1 + 2⁻²⁰, 2]²` is dominated with
+slack 0 and stays so after a translation by `(2²⁰, −2²⁰)`; with the gap reversed (`1 − 2⁻²⁰`) it is
+not, before and after -/
+example :
+    Rect.isDominatedChecked [[1, 0], [0, 1]] [0, 0] [1, 1] [1 + 1 / 1048576, 1 + 1 / 1048576] [2, 2] [0] = some true ∧
+    Rect.isDominatedChecked [[1, 0], [0, 1]] (vadd [0, 0] [1048576, -1048576]) (vadd [1, 1] [1048576, -1048576])
+      (vadd [1 + 1 / 1048576, 1 + 1 / 1048576] [1048576, -1048576]) (vadd [2, 2] [1048576, -1048576]) [0] = some true ∧
+    Rect.isDominatedChecked [[1, 0], [0, 1]] [0, 0] [1, 1] [1 - 1 / 1048576, 1] [2, 2] [0] = some false ∧
+    Rect.isDominatedChecked [[1, 0], [0, 1]] (vadd [0, 0] [1048576, -1048576]) (vadd [1, 1] [1048576, -1048576])
+      (vadd [1 - 1 / 1048576, 1] [1048576, -1048576]) (vadd [2, 2] [1048576, -1048576]) [0] = some false := by
+  decide +kernel
+
+/-- … and for ellipsoids: unit balls with centres `3 + 2⁻²⁰` apart on the first axis
+(`3 + 2⁻²⁰ − 1 − 2 ≥ 0`), before and after the offset; radius 2 replaced by `2 + 2⁻¹⁹` flips it -/
+example :
+    Ellipsoid.isDominatedChecked [[1, 0]] [0, 0] [[1, 0], [0, 1]] 1 [3 + 1 / 1048576, 0] [[1, 0], [0, 1]] 2 [0] = some true ∧
+    Ellipsoid.isDominatedChecked [[1, 0]] (vadd [0, 0] [1048576, 7]) [[1, 0], [0, 1]] 1
+      (vadd [3 + 1 / 1048576, 0] [1048576, 7]) [[1, 0], [0, 1]] 2 [0] = some true ∧
+    Ellipsoid.isDominatedChecked [[1, 0]] (vadd [0, 0] [1048576, 7]) [[1, 0], [0, 1]] 1
+      (vadd [3 + 1 / 1048576, 0] [1048576, 7]) [[1, 0], [0, 1]] (2 + 1 / 524288) [0] = some false := by
+  decide +kernel
+
+end Invariance
 
 end VOPy.C09
